@@ -1,10 +1,11 @@
 #!/bin/bash
-# usage: confirm_seed.sh <propid> <n> <base-commit>
+# usage: confirm_seed.sh <propid> <n> <base-commit> [<source-root, default /tmp/seed> [<tag, e.g. w2>]]
 # Re-confirms a seeded change in a scratch worktree: applies, builds, demo FAILS with it, suite passes with it, demo PASSES without it.
 # On success copies the deliverables to /verif/seeded/<propid>-<n>/ with meta.json. Scratch worktree is removed afterwards.
 export GOFLAGS=-mod=mod GOPROXY=off GOSUMDB=off GOTOOLCHAIN=local PATH=/opt/veriftools/go1.26.8/bin:$PATH; unset GOWORK
-id=$1; n=$2; base=$3
-src=/tmp/seed/$id/out/$n
+id=$1; n=$2; base=$3; root=${4:-/tmp/seed}; tag=$5
+src=$root/$id/out/$n
+[ -n "$tag" ] && n=$tag-$n
 wt=/tmp/confirm/$id-$n
 log=/tmp/confirm/$id-$n.log
 mkdir -p /tmp/confirm; rm -rf $wt; : > $log
